@@ -15,7 +15,8 @@ import tempfile
 import common
 
 SYNTAX = {'css': (': ', ';'), 'scss': (': ', ';'), 'sass': (': ', ''), 'less': (': ', ';'), 'stylus': (' ', '')}
-USER = {'pos': 'float:left|right', 'zzq': 'zoom:2|3', 'zzr': 'hello ${1:w} ${2}', 'c': 'cursor:help|move', 'ovh': 'overflow:hidden'}
+USER = {'pos': 'float:left|right', 'zzq': 'zoom:2|3', 'zzr': 'hello ${1:w} ${2}', 'c': 'cursor:help|move', 'ovh': 'overflow:hidden',
+        'mTq': 'margin-top:auto|0', 'Zq': 'z-index:1|2'}          # keys are matched without regard to letter case
 FIELD = re.compile(r'\$\{(\d+)(?::([^}]*))?\}')
 
 
@@ -41,7 +42,9 @@ def _chunk(items):
         for syn in syntaxes:
             between, after = SYNTAX[syn]
             for marking in (False, True):
-                cfg = {'type': 'stylesheet', 'syntax': syn, 'cache': caches.setdefault((syn, bool(user)), {})}
+                # one cache per syntax, shared by the calls with the built-in table and with the user table (a cache never changes a result)
+                cfg = {'type': 'stylesheet', 'syntax': syn, 'cache': caches.setdefault(syn, {})}
+                plain = dict(cfg)
                 if user:
                     cfg['snippets'] = dict(user)
                 if marking:
@@ -53,6 +56,15 @@ def _chunk(items):
                     if extra:
                         c.update(extra)
                     with common.Alarm(10):
+                        if user:
+                            # the same call with the built-in table and the same cache comes first
+                            w = dict(plain)
+                            if extra:
+                                w.update(extra)
+                            try:
+                                emmet.expand(abbr, w)
+                            except Exception:
+                                pass
                         return emmet.expand(abbr, c)
                 try:
                     got = ex(key)
@@ -78,7 +90,7 @@ def _chunk(items):
                     if not v['quotedField'] and _norm(_strip_fields(got)) != _norm(exp):
                         bad.append(('own-key (raw snippet)', dict(case, expected=exp, actual=got)))
                 # keywords typed in full after the key
-                if v['kind'] == 'prop' and re.fullmatch(r'[a-z]+', key) and not marking:
+                if v['kind'] == 'prop' and re.fullmatch(r'[A-Za-z]+', key) and not marking:
                     for kw in v['keywords']:
                         for form in (kw, kw.upper(), kw.capitalize()):
                             for sep in (':', '-'):
